@@ -781,13 +781,6 @@ func (c *rtCluster) monitors() {
 				if e.A == 2 {
 					openSpi = &open{e.Kind, e.Ms, curV, 0}
 					rep.count("runtime:blocking-spi")
-					var ld uint64
-					if k, _ := fmt.Sscanf(e.S, "leader=%d", &ld); k == 1 && (ld+4-e.H%4)%4 != curV%4 {
-						// the block of a NEW_VIEW for a later view is validated under that view's context before the node
-						// moves there; the election of the view it is still in is not required to cancel it
-						openSpi.v = ^uint64(0)
-						rep.count("runtime:blocking-validate-for-the-view-of-a-new-view")
-					}
 				}
 			case "SPI-propose", "SPI-validate", "SPI-commit":
 				if openSpi != nil && e.B && openSpi.trigAt != 0 {
